@@ -57,7 +57,7 @@ pub fn main(_args: &[String]) {
 }
 
 fn all(ctx: &str) {
-    for (form, getter) in [("func", 0usize), ("arm", 1), ("closure", 2), ("fake", 3), ("unchecked_fake", 4), ("unchecked_target", 5), ("both_unchecked", 6)] {
+    for (form, getter) in [("func", 0usize), ("arm", 1), ("closure", 2), ("fake", 3), ("unchecked_fake", 4), ("unchecked_target", 5), ("both_unchecked", 6), ("same_address", 7)] {
         for t in FAMILY {
             let mut row = String::new();
             for f in FAMILY {
@@ -68,6 +68,9 @@ fn all(ctx: &str) {
                     3 => match f.fakemacro { Some(g) => attempt((t.taddr)(), |inj| inj.when_called((t.target)()).will_execute(g())), None => '-' },
                     4 => attempt((t.taddr)(), |inj| inj.when_called((t.target)()).will_execute_raw((f.unchecked_fake)())),
                     5 => attempt((t.taddr)(), |inj| unsafe { inj.when_called_unchecked((t.unchecked_target)()).will_execute_raw((f.fake)()) }),
+                    // the replacement pointer holds the TARGET's own address under the other type (a coerced or transmuted pointer to the same function):
+                    // the gate compares types, not addresses
+                    7 => attempt((t.taddr)(), |inj| inj.when_called((t.target)()).will_execute_raw(unsafe { FuncPtr::new((t.taddr)() as *const (), (f.tname)()) })),
                     _ => attempt((t.taddr)(), |inj| unsafe { inj.when_called_unchecked((t.unchecked_target)()).will_execute_raw_unchecked((f.unchecked_fake)()) }),
                 };
                 row.push(c);
